@@ -48,6 +48,8 @@ void ref_ys(Out& r, int i, int v) { r.ys[i] = v; }
 void ref_in_a(In& r, int v) { r.a = v; }
 void ref_int(int& r, int v) { r = v; }
 void arr_set(int[3] a, int i, int v) { a[i] = v; }
+void arr_fwd(int[3] a, int i, int v) { arr_set(a, i, v); println("fw", a[i]); }
+void arr_fwd2(int[3] a, int i, int v) { arr_fwd(a, i, v); println("fw2", a[i]); }
 void ptr_x(Out* p, int v) { p->x = v; }
 void ptr_int(int* p, int v) { *p = v; }
 void byval(Out o, int v) { o.x = v; o.ys[0] = v; println("bv", o.x, o.in.a, o.in.b, o.ys[0], o.ys[1]); }
@@ -208,6 +210,16 @@ def op_table():
     def _(r, st):
         k, i, v = r.below(2), r.below(3), V(r)
         return "arr_set(ar%d, %d, %d);" % (k + 1, i, v), ["w d:%d.%d %d" % (4 + k, i, v)], None
+
+    @reg("w_arrparam_forwarded")
+    def _(r, st):
+        k, i, v = r.below(2), r.below(3), V(r)
+        return "arr_fwd(ar%d, %d, %d);" % (k + 1, i, v), ["w d:%d.%d %d" % (4 + k, i, v)], ("fw", 0, v)
+
+    @reg("w_arrparam_forwarded_twice")
+    def _(r, st):
+        k, i, v = r.below(2), r.below(3), V(r)
+        return "arr_fwd2(ar%d, %d, %d);" % (k + 1, i, v), ["w d:%d.%d %d" % (4 + k, i, v)], ("fw2", 0, v)
 
     @reg("w_method_x")
     def _(r, st):
@@ -504,6 +516,10 @@ def expected_stdout(case, gated, mout):
             tag, n, v = callee
             if tag == "bv":
                 out.append("bv %d %s %s %d %s\n" % (v, cur[1], cur[2], v, cur[4]))
+            elif tag == "fw":
+                out.append("fw %d\n" % v)
+            elif tag == "fw2":
+                out.append("fw %d\nfw2 %d\n" % (v, v))
             else:
                 out.append("bvi %s %d %s\n" % (cur[0], v, cur[2]))
         out.append(d)
